@@ -252,6 +252,21 @@ Definition mfield_singular ik pairs := sing_assemble pairs (mfield_sing_val ik).
 
 End Singular.
 
+(* ---- dense_assembler.py: regular part over all pairs of the (same) grid ++ singular part --------------- *)
+Section Dense.
+Variables (g : geom) (st ss : space) (quad : list qpt) (kr ks : kernel) (Et Es : list nat) (pairs : list spair).
+Definition scalar_dense := scalar_regular g g st ss quad kr true Et Es ++ scalar_singular g st ss ks pairs.
+Definition lap_hyp_dense := lap_hyp_regular g g st ss quad kr true Et Es ++ lap_hyp_singular g st ss ks pairs.
+Definition helm_hyp_dense (k : A) :=
+  helm_hyp_regular g g st ss quad kr true k Et Es ++ helm_hyp_singular g st ss ks k pairs.
+Definition modhelm_hyp_dense (k : A) :=
+  modhelm_hyp_regular g g st ss quad kr true k Et Es ++ modhelm_hyp_singular g st ss ks k pairs.
+Definition efield_dense (mik ik : A) :=
+  efield_regular g g st ss quad kr true mik ik Et Es ++ efield_singular g st ss ks mik ik pairs.
+Definition mfield_dense (dist : V3 -> V3 -> A) (ik : A) :=
+  mfield_regular g g st ss quad kr true dist ik Et Es ++ mfield_singular g st ss ks dist ik pairs.
+End Dense.
+
 (* ---- the spaces the decompositions refer to --------------------------------------------------------- *)
 (* DP0 / DP1 on the same grid with the same normal multipliers: element-local numbering, multipliers 1 *)
 Definition dp0_of (s : space) : space :=
